@@ -32,6 +32,8 @@ func execLine(line string) string {
 			return execGen(t[1:])
 		case "build":
 			return execBuild(t[1:])
+		case "pogs19":
+			return execPogs19(t[1:])
 		case "gen15":
 			return execGen15(t[1:])
 		case "rpc":
@@ -68,6 +70,7 @@ var generators = map[string]func(rec *lib.Rec, r *lib.Rng, thorough bool){
 	"C09": genC09,
 	"C11": genC11,
 	"C15": genC15,
+	"C19": genC19,
 	"C12": genC12,
 	"C04": func(rec *lib.Rec, r *lib.Rng, th bool) { genBuild(rec, r, th, "C04") },
 	"C05": func(rec *lib.Rec, r *lib.Rng, th bool) { genBuild(rec, r, th, "C05") },
